@@ -331,6 +331,13 @@ func genScript(r *vh.RNG, malformed bool) ([]string, scriptMeta) {
 			fmt.Sprintf("ES %d 1 %d 1 %d", evt, r.Intn(3), ethr)}[r.Intn(4)]
 		evs = append(evs[:at], append([]string{l}, evs[at:]...)...)
 	}
+	// the inserter refuses a block (Server.commit -> removeMarkedBlock)
+	if r.Chance(25) {
+		for x := 0; x < r.Range(1, 2); x++ {
+			at := r.Intn(len(evs) + 1)
+			evs = append(evs[:at], append([]string{fmt.Sprintf("X %d", B[r.Intn(3)])}, evs[at:]...)...)
+		}
+	}
 	// dumps
 	for x := 0; x < len(evs)/12; x++ {
 		at := r.Intn(len(evs) + 1)
